@@ -1,3 +1,334 @@
+/-
+C05 — "Poisson log-likelihood quantities equal their textbook definition".
+Property theorems over the model of `Model.lean` (a transcription of
+`PoissonLogLikelihoodWithLinearModelForMeanAndProjData` and the functions it calls), for an arbitrary
+linearly ordered field `K` (so in particular for `ℚ`, at which the driver executes the same definitions, and
+for `ℝ`), every image, every data set, every number of viewgrams / bins / voxels, every subset scheme and
+every request history.  Floating point rounding is not part of the model.
+-/
 import StirVerif.C05.Proofs
+import Mathlib.Tactic.NormNum
+
+set_option linter.unusedSectionVars false
+
 namespace StirVerif.C05
+variable {K : Type} [Field K] [LinearOrder K] [IsStrictOrderedRing K]
+
+/-! ## "The 'gradient plus sensitivity' quantity exceeds the gradient by exactly the sensitivity" -/
+
+/-- the subset gradient is the "subset gradient plus sensitivity" minus the subset sensitivity, voxel by voxel,
+    exactly (thresholds, end-plane clearing, trivial / non-trivial normalisation included), when the sensitivity is
+    computed with the same projector on the same viewgrams (for which viewgrams that is not the case in the code see
+    `C05_sensitivity_reads_subset_fails`) -/
+theorem C05_grad_eq_gradPlusSens_sub_sens (c : Consts K) (zero : Bool) (img : Nat → K) (S : List (Viewgram K)) (v : Nat) :
+    grad c zero img S v = gradPlusSens c zero img S v - sens zero S v :=
+  grad_eq_gradPlusSens_sub_sens c zero img S v
+
+/-! ## "each quantity summed over all subsets equals its full-data counterpart"
+Hypothesis: the viewgrams of the subsets together are a rearrangement of the viewgrams of the data
+(`Ss.flatten.Perm All`; that the library's subset scheme has this property is C06). -/
+
+theorem C05_sum_over_subsets_grad (c : Consts K) (zero : Bool) (img : Nat → K) (Ss : List (List (Viewgram K)))
+    (All : List (Viewgram K)) (h : Ss.flatten.Perm All) (v : Nat) :
+    sumMap (fun S => grad c zero img S v) Ss = grad c zero img All v :=
+  grad_sum_over_subsets c zero img Ss All h v
+
+theorem C05_sum_over_subsets_gradPlusSens (c : Consts K) (zero : Bool) (img : Nat → K) (Ss : List (List (Viewgram K)))
+    (All : List (Viewgram K)) (h : Ss.flatten.Perm All) (v : Nat) :
+    sumMap (fun S => gradPlusSens c zero img S v) Ss = gradPlusSens c zero img All v :=
+  gradPlusSens_sum_over_subsets c zero img Ss All h v
+
+theorem C05_sum_over_subsets_sens (zero : Bool) (Ss : List (List (Viewgram K)))
+    (All : List (Viewgram K)) (h : Ss.flatten.Perm All) (v : Nat) :
+    sumMap (fun S => sens zero S v) Ss = sens zero All v :=
+  sens_sum_over_subsets zero Ss All h v
+
+theorem C05_sum_over_subsets_value (c : Consts K) (log : K → K) (zero : Bool) (img : Nat → K) (Ss : List (List (Viewgram K)))
+    (All : List (Viewgram K)) (h : Ss.flatten.Perm All) :
+    sumMap (fun S => value c log zero img S) Ss = value c log zero img All :=
+  value_sum_over_subsets c log zero img Ss All h
+
+/-- Hessian times input, accumulated subset after subset into the same output (`accumulate_Hessian_times_input`),
+    is the Hessian times input of the full data (as read by the function, see `C05_hessian_reads_*`) -/
+theorem C05_sum_over_subsets_hessTimes (c : Consts K) (img x : Nat → K) (Ss : List (List (Viewgram K)))
+    (All : List (Viewgram K)) (h : Ss.flatten.Perm All) (out0 : K) (v : Nat) :
+    Ss.foldl (fun o S => hessTimes c img x o S v) out0 = hessTimes c img x out0 All v := by
+  rw [hessTimes_foldl]; exact hessTimes_perm c img x out0 h v
+
+theorem C05_sum_over_subsets_approxHess (c : Consts K) (x : Nat → K) (Ss : List (List (Viewgram K)))
+    (All : List (Viewgram K)) (h : Ss.flatten.Perm All) (out0 : K) (v : Nat) :
+    Ss.foldl (fun o S => approxHess c x o S v) out0 = approxHess c x out0 All v := by
+  rw [approxHess_foldl]; exact approxHess_perm c x out0 h v
+
+/-- when `use_subset_sensitivities` is off every subset reports the total divided by the number of subsets:
+    these shares again add up to the total -/
+theorem C05_sum_over_subsets_sensShare (total : K) (n : Nat) (hn : n ≠ 0) :
+    sumMap (fun _ => sensShare total (n : K)) (List.range n) = total := by
+  unfold sensShare
+  rw [sumMap_const, List.length_range]
+  have : (n : K) ≠ 0 := by exact_mod_cast hn
+  field_simp
+
+/-! ## "with a prior the penalised quantities are the unpenalised ones minus the prior's share" -/
+
+/-- a penalised subset quantity is the unpenalised one minus the prior's value / gradient component divided by the
+    number of subsets (this is the definition transcribed from `GeneralisedObjectiveFunction`) … -/
+theorem C05_penalised_eq (q p n : K) : penalised q p n = q - p / n := rfl
+
+/-- … and over all subsets the shares add up to the whole prior term: the penalised quantities summed over the
+    subsets are the summed unpenalised ones minus the prior term -/
+theorem C05_penalised_sum_over_subsets {α} (q : α → K) (p : K) (Ss : List α) (hn : Ss ≠ []) :
+    sumMap (fun S => penalised (q S) p (Ss.length : K)) Ss = sumMap q Ss - p :=
+  penalised_sum q p Ss hn
+
+/-- the full statement for the Hessian products: the share subtracted is the prior's Hessian applied to the *input* -/
+def C05_penalised_hessian : Prop :=
+  ∀ (q priorOfInput priorOfOutput n : ℚ), penalisedHess q priorOfInput priorOfOutput n = penalised q priorOfInput n
+
+/-- the code applies the prior's Hessian to its own output: the clause holds only where that makes no difference -/
+theorem C05_penalised_hessian_partial (q priorOfInput priorOfOutput n : K) (h : priorOfOutput = priorOfInput) :
+    penalisedHess q priorOfInput priorOfOutput n = penalised q priorOfInput n := by
+  unfold penalisedHess penalised; rw [h]
+
+/-- negative witness (replayed on the implementation by the harness oracle, key
+    `penalised-hessian:prior-hessian-applied-to-output`) -/
+theorem C05_penalised_hessian_fails : ¬ C05_penalised_hessian := by
+  intro h
+  have := h 1 1 2 1
+  norm_num [penalisedHess, penalised] at this
+
+/-! ## "… equal the expressions derived from L = Σ_b [y_b log(ybar_b) − ybar_b] with ybar = n(Pλ + a) … wherever ybar_b > 0"
+The code's thresholds appear as the regular regions `RegularGrad`, `RegularValue`, `RegularHess` (ProofsTextbook.lean). -/
+
+theorem C05_textbook_on_regular_value (c : Consts K) (log : K → K) (zero : Bool) (img : Nat → K) (S : List (Viewgram K))
+    (h : RegularValue c zero img S) : value c log zero img S = tbValue log img (dataBins zero S) :=
+  value_textbook c log zero img S h
+
+theorem C05_textbook_on_regular_grad (c : Consts K) (zero : Bool) (img : Nat → K) (S : List (Viewgram K)) (v : Nat)
+    (h : RegularGrad c zero img S) : grad c zero img S v = tbGrad img (dataBins zero S) v :=
+  grad_textbook c zero img S v h
+
+theorem C05_textbook_on_regular_gradPlusSens (c : Consts K) (zero : Bool) (img : Nat → K) (S : List (Viewgram K)) (v : Nat)
+    (h : RegularGrad c zero img S) : gradPlusSens c zero img S v = tbGradPlusSens img (dataBins zero S) v :=
+  gradPlusSens_textbook c zero img S v h
+
+/-- the sensitivity needs no regularity -/
+theorem C05_textbook_sens (zero : Bool) (S : List (Viewgram K)) (v : Nat) :
+    sens zero S v = tbSens (dataBins zero S) v :=
+  sens_textbook zero S v
+
+/-- the full statement for the Hessian product: the bins of the data (end planes of segment 0 removed when
+    `zero_seg0_end_planes` is set, as for value and gradient) -/
+def C05_textbook_on_regular_hessTimes : Prop :=
+  ∀ (c : Consts ℚ) (zero : Bool) (img x : Nat → ℚ) (out0 : ℚ) (S : List (Viewgram ℚ)) (v : Nat),
+    RegularHess c img x S → hessTimes c img x out0 S v = out0 + tbHessTimes img x (dataBins zero S) v
+
+/-- proved part: the Hessian product is the textbook one over *all* bins of the viewgrams it reads (the function
+    does not look at `zero_seg0_end_planes`), hence the full statement for `zero_seg0_end_planes = false` -/
+theorem C05_textbook_on_regular_hessTimes_partial (c : Consts K) (img x : Nat → K) (out0 : K) (S : List (Viewgram K)) (v : Nat)
+    (h : RegularHess c img x S) : hessTimes c img x out0 S v = out0 + tbHessTimes img x (dataBins false S) v := by
+  rw [hessTimes_textbook c img x out0 S v h]
+  have : dataBins false S = S.flatten := by
+    unfold dataBins zeroed
+    simp only [Bool.false_and, Bool.not_false]
+    exact List.filter_eq_self.mpr (fun _ _ => rfl)
+  rw [this]
+
+/-! ### instance used for non-vacuity and negative witnesses -/
+
+def exC : Consts ℚ := { smallNum := 1 / 1000000, maxQuot := 10000, tiny := 1 / 100000000000000000000 }
+def exB1 : Bin ℚ := { endPlane := false, y := 3, a := some (1 / 2), fac := [.normFactor 2], row := [(0, 1), (1, 2)] }
+def exB2 : Bin ℚ := { endPlane := true, y := 2, a := some (1 / 4), fac := [.normFactor 2, .eff (1 / 2)], row := [(1, 1)] }
+def exB3 : Bin ℚ := { endPlane := false, y := 0, a := none, fac := [], row := [(0, 3)] }
+def exS : List (Viewgram ℚ) := [[exB1, exB2], [exB3]]
+def exImg : Nat → ℚ := fun i => if i = 0 then 1 else 2
+def exX : Nat → ℚ := fun i => if i = 0 then 1 / 2 else 1
+
+/-- the hypotheses are satisfiable by a non-trivial instance (additive term, chained normalisation, a bin without counts,
+    a cleared end plane) -/
+example : RegularGrad exC true exImg exS ∧ RegularValue exC true exImg exS ∧ RegularHess exC exImg exX exS := by
+  refine ⟨?_, ?_, ?_⟩
+  · unfold RegularGrad
+    simp only [exS, List.forall_mem_cons, List.not_mem_nil, false_imp_iff, implies_true, and_true]
+    norm_num [exB1, exB2, exB3, exC, exImg, smallOf, vgMax, maxK, yEff, zeroed, ybarTB, fwd, sumMap]
+  · unfold RegularValue
+    simp only [exS, List.forall_mem_cons, List.not_mem_nil, false_imp_iff, implies_true, and_true]
+    norm_num [exB1, exB2, exB3, exC, exImg, smallOf, vgMax, maxK, yEff, zeroed, ybarTB, fwd, sumMap, effB, undoNorm]
+  · unfold RegularHess
+    simp only [exS, List.forall_mem_cons, List.not_mem_nil, false_imp_iff, implies_true, and_true]
+    norm_num [exB1, exB2, exB3, exC, exImg, exX, smallOf, vgMax, maxK, hessNum, ybarTB, fwd, sumMap]
+
+/-- the subsets hypothesis is satisfiable with subsets in an order different from the data -/
+example : ([[[exB3]], [[exB1, exB2]]] : List (List (Viewgram ℚ))).flatten.Perm exS := by
+  simp only [List.flatten_cons, List.flatten_nil, List.append_nil, List.singleton_append, exS]
+  exact List.Perm.swap _ _ _
+
+/-- negative witness: with `zero_seg0_end_planes = true` the Hessian product still contains the end-plane bin `exB2`
+    (replayed on the implementation by the harness oracle, key `hessian:ignores-zero-seg0-end-planes`) -/
+theorem C05_textbook_on_regular_hessTimes_fails : ¬ C05_textbook_on_regular_hessTimes := by
+  intro h
+  have h1 := h exC true exImg exX 0 exS 1 (by
+    unfold RegularHess
+    simp only [exS, List.forall_mem_cons, List.not_mem_nil, false_imp_iff, implies_true, and_true]
+    norm_num [exB1, exB2, exB3, exC, exImg, exX, smallOf, vgMax, maxK, hessNum, ybarTB, fwd, sumMap])
+  have h2 := C05_textbook_on_regular_hessTimes_partial exC exImg exX 0 exS 1 (by
+    unfold RegularHess
+    simp only [exS, List.forall_mem_cons, List.not_mem_nil, false_imp_iff, implies_true, and_true]
+    norm_num [exB1, exB2, exB3, exC, exImg, exX, smallOf, vgMax, maxK, hessNum, ybarTB, fwd, sumMap])
+  rw [h2] at h1
+  norm_num [tbHessTimes, dataBins, zeroed, exS, exB1, exB2, exB3, exImg, exX, ybarTB, fwd, sumMap, coef] at h1
+
+/-! ## "… the (subset) gradient … and Hessian-times-vector … equal the expressions derived from L":
+the derivatives themselves, over `ℝ` with `Real.log` (Mathlib `HasDerivAt`) -/
+
+/-- **the gradient is the derivative of the value**: on the strict regular region (counts 0 or above the
+    "really zero" threshold; neither the cap of the quotient nor, strictly, the cap of the estimate active) the model's value
+    is differentiable along every coordinate direction `v` and its derivative is the model's gradient at `v` -/
+theorem C05_grad_is_derivative (c : Consts ℝ) (hq : 0 < c.maxQuot) (zero : Bool) (img : Nat → ℝ) (S : List (Viewgram ℝ)) (v : Nat)
+    (h : StrictRegular c zero img S) :
+    HasDerivAt (fun t => value c Real.log zero (shift img v t) S) (grad c zero img S v) 0 :=
+  value_hasDerivAt c hq zero img S v h
+
+/-- **the textbook Hessian product is the derivative of the gradient**: along any direction `x` the model's gradient is
+    differentiable and its derivative is `−Σ_b P_bv y_b (Px)_b / (Pλ+a)_b²` over the bins of the data
+    (end planes of segment 0 removed when requested) -/
+theorem C05_textbook_hessian_is_derivative_of_grad (c : Consts ℝ) (hq : 0 < c.maxQuot) (zero : Bool) (img x : Nat → ℝ)
+    (S : List (Viewgram ℝ)) (v : Nat) (h : StrictRegularGrad c zero img S) :
+    HasDerivAt (fun t => grad c zero (shiftX img x t) S v) (tbHessTimes img x (dataBins zero S) v) 0 :=
+  grad_hasDerivAt c hq zero img x S v h
+
+/-- the full statement: what `accumulate_sub_Hessian_times_input` adds to a zero output is the derivative of the subset gradient -/
+def C05_hess_is_derivative_of_grad : Prop :=
+  ∀ (c : Consts ℝ) (zero : Bool) (img x : Nat → ℝ) (S : List (Viewgram ℝ)) (v : Nat), 0 < c.maxQuot →
+    StrictRegularGrad c zero img S → RegularHess c img x S →
+      HasDerivAt (fun t => grad c zero (shiftX img x t) S v) (hessTimes c img x 0 S v) 0
+
+/-- proved for `zero_seg0_end_planes = false` (the Hessian functions read the viewgrams directly and never clear the end
+    planes; for `true` see `C05_textbook_on_regular_hessTimes_fails`) and for the viewgrams the function reads
+    (see `C05_hessian_reads_subset_fails` for TOF data) -/
+theorem C05_hessian_end_planes_partial (c : Consts ℝ) (hq : 0 < c.maxQuot) (img x : Nat → ℝ) (S : List (Viewgram ℝ)) (v : Nat)
+    (h : StrictRegularGrad c false img S) (hH : RegularHess c img x S) :
+    HasDerivAt (fun t => grad c false (shiftX img x t) S v) (hessTimes c img x 0 S v) 0 := by
+  rw [C05_textbook_on_regular_hessTimes_partial c img x 0 S v hH, zero_add]
+  exact grad_hasDerivAt c hq false img x S v h
+
+noncomputable def exCR : Consts ℝ := { smallNum := 1 / 1000000, maxQuot := 10000, tiny := 1 / 100000000000000000000 }
+noncomputable def exR1 : Bin ℝ := { endPlane := false, y := 3, a := some (1 / 2), fac := [.normFactor 2], row := [(0, 1), (1, 2)] }
+noncomputable def exR2 : Bin ℝ := { endPlane := true, y := 2, a := some (1 / 4), fac := [.normFactor 2, .eff (1 / 2)], row := [(1, 1)] }
+noncomputable def exR3 : Bin ℝ := { endPlane := false, y := 0, a := none, fac := [], row := [(0, 3)] }
+noncomputable def exSR : List (Viewgram ℝ) := [[exR1, exR2], [exR3]]
+noncomputable def exImgR : Nat → ℝ := fun i => if i = 0 then 1 else 2
+
+/-- the strict regular regions are inhabited by a non-trivial instance -/
+example : 0 < exCR.maxQuot ∧ StrictRegular exCR true exImgR exSR ∧ StrictRegularGrad exCR false exImgR exSR := by
+  refine ⟨by norm_num [exCR], ?_, ?_⟩
+  · unfold StrictRegular
+    simp only [exSR, List.forall_mem_cons, List.not_mem_nil, false_imp_iff, implies_true, and_true]
+    norm_num [exR1, exR2, exR3, exCR, exImgR, smallOf, vgMax, maxK, yEff, zeroed, ybarTB, fwd, sumMap, effB, undoNorm]
+  · unfold StrictRegularGrad
+    simp only [exSR, List.forall_mem_cons, List.not_mem_nil, false_imp_iff, implies_true, and_true]
+    norm_num [exR1, exR2, exR3, exCR, exImgR, smallOf, vgMax, maxK, yEff, zeroed, ybarTB, fwd, sumMap]
+
+/-! ### which viewgrams the Hessian functions read -/
+
+/-- the full statement: the Hessian functions process the viewgrams of the subset -/
+def C05_hessian_reads_subset : Prop := ∀ (tof0 : Nat → Nat) (S : List Nat), hessReads tof0 S = S
+
+/-- proved part: for non-TOF data (every viewgram is its own "timing position 0" sibling) they do -/
+theorem C05_hessian_reads_subset_partial (tof0 : Nat → Nat) (S : List Nat) (h : ∀ i ∈ S, tof0 i = i) :
+    hessReads tof0 S = S := by
+  unfold hessReads
+  induction S with
+  | nil => rfl
+  | cons i S ih =>
+    simp only [List.map_cons, h i (by simp)]
+    rw [ih (fun j hj => h j (by simp [hj]))]
+
+/-- negative witness: three TOF bins per (segment, view), ids `3k + t`: the viewgrams 0,1,2 (one view, TOF bins −1,0,1
+    in some numbering with sibling 0) are all processed as viewgram 0
+    (replayed on the implementation by the harness oracle, key `hessian:tof-data-processed-at-timing-pos-0`) -/
+theorem C05_hessian_reads_subset_fails : ¬ C05_hessian_reads_subset := by
+  intro h
+  have := h (fun i => i - i % 3) [0, 1, 2]
+  revert this
+  decide
+
+/-- the full statement: the sensitivity back-projects along the rows of the viewgrams of the subset -/
+def C05_sensitivity_reads_subset : Prop :=
+  ∀ (trivialNorm zero : Bool) (tof0 : Nat → Nat) (S : List Nat), sensReads trivialNorm zero tof0 S = S
+
+/-- proved part: it does unless the normalisation is trivial *and* `zero_seg0_end_planes` is set, and then still for non-TOF data -/
+theorem C05_sensitivity_reads_subset_partial (trivialNorm zero : Bool) (tof0 : Nat → Nat) (S : List Nat)
+    (h : (trivialNorm && zero) = false ∨ ∀ i ∈ S, tof0 i = i) : sensReads trivialNorm zero tof0 S = S := by
+  unfold sensReads
+  rcases h with h | h
+  · simp [h]
+  · split
+    · exact C05_hessian_reads_subset_partial tof0 S h
+    · rfl
+
+/-- negative witness: trivial normalisation, `zero_seg0_end_planes`, three TOF bins: the ones that are back-projected are
+    viewgrams of timing position 0 (replayed on the implementation by the harness oracle, key
+    `sensitivity:tof-zero-end-planes-trivial-norm-at-timing-pos-0`) -/
+theorem C05_sensitivity_reads_subset_fails : ¬ C05_sensitivity_reads_subset := by
+  intro h
+  have := h true true (fun i => i - i % 3) [0, 1, 2]
+  revert this
+  decide
+
+/-! ## the executable accumulation used by the driver is the image of the model -/
+
+theorem C05_accumulate_is_image (n : Nat) (cs : List (Nat × K)) (v : Nat) (hv : v < n) :
+    (accumulate n cs).getD v 0 = imageAt cs v :=
+  accumulate_getD n cs v hv
+
+/-! ## "The results do not depend on the order in which value, gradient, sensitivity and Hessian products are
+first requested after set-up" — the set-up flags -/
+
+/-- the full statement: for every configuration, both values of each member without initialiser, every history of
+    requests after `set_up`: every request is served (no "internal error") with the projectors handed to
+    `setup_distributable_computation` and the normalisation set-up that the request needs -/
+def C05_setup_machine_correct : Prop :=
+  ∀ (sameProj recompute : Bool) (numSubsets : Nat) (g g2 : Bool) (rs : List Req), 0 < numSubsets →
+    ∀ b ∈ run sameProj (St.afterSetUp sameProj recompute numSubsets g g2) rs, b = true
+
+/-- proved part: it holds whenever `set_up` computes the sensitivities (the default), for both values of both
+    indeterminate members, and also without recomputation if the indeterminate member
+    `latest_setup_distributable_computation_was_with_orig_projectors` happens to be `false` -/
+theorem C05_setup_machine_correct_partial (sameProj recompute : Bool) (numSubsets : Nat) (g g2 : Bool) (rs : List Req)
+    (hn : 0 < numSubsets) (h : recompute = true ∨ g = false) :
+    ∀ b ∈ run sameProj (St.afterSetUp sameProj recompute numSubsets g g2) rs, b = true := by
+  apply run_ok
+  rcases h with h | h
+  · subst h; exact inv_afterSetUp_recompute sameProj numSubsets hn g g2
+  · subst h
+    cases recompute
+    · exact inv_afterSetUp_norecompute sameProj numSubsets g2
+    · exact inv_afterSetUp_recompute sameProj numSubsets hn false g2
+
+/-- negative witness: sensitivities not recomputed by `set_up` (read from file / set to 1), indeterminate member `true`,
+    first request = value: the condition at .cxx:742 (`already || !latest`, where the gradient path has
+    `!already || !latest`) does not set up and the library raises its internal error
+    (replayed on the implementation by the harness, key `setup-flag:order-dependent-value`) -/
+theorem C05_setup_machine_correct_fails : ¬ C05_setup_machine_correct := by
+  intro h
+  have := h true false 1 true false [Req.value] (by decide) false
+  revert this
+  decide
+
+/-- … for every configuration, and whatever follows; a gradient request first makes the same value request succeed -/
+theorem C05_setup_machine_value_first_fails (sameProj : Bool) (n : Nat) (g2 : Bool) (rs : List Req) :
+    (run sameProj (St.afterSetUp sameProj false n true g2) (Req.value :: rs)).head? = some false ∧
+      (run sameProj (St.afterSetUp sameProj false n true g2) [Req.gradient false, Req.value]) = [true, true] := by
+  unfold St.afterSetUp
+  simp only [Bool.false_eq_true, if_false, run, List.head?_cons]
+  revert sameProj g2
+  decide
+
+/-- the hypotheses of the partial theorem are those of real use: default configuration, 2 subsets, TOF data with a
+    non-TOF sensitivity projector, a history using all kinds of request -/
+example : ∀ b ∈ run false (St.afterSetUp false true 2 true true)
+    [Req.value, Req.gradient false, Req.sensitivity, Req.hessian, Req.gradient true, Req.approxHessian, Req.value], b = true :=
+  C05_setup_machine_correct_partial false true 2 true true _ (by decide) (Or.inl rfl)
+
 end StirVerif.C05
